@@ -103,6 +103,8 @@ class Controller(object):
             self.ctl.release()
 
     def _wait_go(self, k):
+        if self.aborted:
+            raise _Abort()
         if not self.go[k].acquire(timeout=WATCHDOG * 2):
             raise common.HarnessError('worker %d never got the baton' % k)
         if self.aborted:
@@ -132,7 +134,7 @@ class Controller(object):
                     self.step(k)
         if self.aborted:
             for g in self.go:
-                g.release()
+                g.release(64)
         for th in self.threads:
             th.join(timeout=WATCHDOG)
             if th.is_alive():
@@ -235,13 +237,11 @@ def destructive_stage(plan):
 
 def in_snaps(rec):
     """[(sub-request index, stage, snapshot)] of the ':in' snapshots (taken before the stage's ops)."""
-    out, sub = [], -1
+    out = []
     for s in rec['snaps']:
         st, io = s['stage'].split(':')
-        if st == 'start' and io == 'in':
-            sub += 1
         if io == 'in':
-            out.append((sub, st, s))
+            out.append((s.get('sub', 0), st, s))
     return out
 
 
@@ -267,8 +267,24 @@ def _is_collection(o):
     return isinstance(o, MUTABLE) or hasattr(o, '__dict__')
 
 
+PRIORITY = ['aliases_class_level', 'aliases_other_request', 'history_dependent', 'foreign_entry_visible',
+            'token_crossed', 'foreign_hook_ran', 'class_state_changed', 'serving_not_cleared', 'serving_not_loaded',
+            'token_lost', 'thread_local_broken', 'app_settings_crossed', 'app_state_changed',
+            'response_history_dependent', 'own_mutation_lost', 'stages_differ', 'escaped']
+
+
 def oracle(case, res):
-    """Evaluate the property statement on what the real code did.  Returns [(what, signature)]."""
+    """Evaluate the property statement on what the real code did.  Returns [(what, signature)],
+    the most specific kinds of failure first."""
+    bad = _oracle(case, res)
+
+    def rank(b):
+        k = b[1].split(':')[0]
+        return PRIORITY.index(k) if k in PRIORITY else len(PRIORITY)
+    return sorted(bad, key=rank)
+
+
+def _oracle(case, res):
     bad = []
     plans, recs = case['plans'], res['records']
     class_objs = S.class_level_objects()
@@ -375,12 +391,8 @@ def oracle(case, res):
             bad.append(('after request %d (%s) cherrypy.serving still holds %s (default objects restored: %s)'
                         % (i, tok, rec['serving_after'], rec['default_after']), 'serving_not_cleared'))
         # (7) object identity: no per-request collection is shared with another request or class level
-        for (stage, objs) in rec['objs']:
-            pass
-        sub = -1
-        for (stage, objs) in rec['objs']:
-            if stage == 'start:in':
-                sub += 1
+        for (stage, objs), snap in zip(rec['objs'], rec['snaps']):
+            sub = snap.get('sub', 0)
             for slot, o in objs.items():
                 if not _is_collection(o):
                     continue
@@ -395,10 +407,8 @@ def oracle(case, res):
                                 % (i, tok, stage, slot, prev[2], prev[0]), 'aliases_other_request:' + slot.split('.')[0]))
     # baselines are held to the same identity rule
     for k, (bp, brec) in res['baselines'].items():
-        sub = -1
-        for (stage, objs) in brec['objs']:
-            if stage == 'start:in':
-                sub += 1
+        for (stage, objs), snap in zip(brec['objs'], brec['snaps']):
+            sub = snap.get('sub', 0)
             for slot, o in objs.items():
                 if not _is_collection(o):
                     continue
